@@ -265,7 +265,7 @@ pub fn exec(_label: &str, input: &str, out: &mut CaseOut) {
 pub fn zinc_alphabet_bytes(rng: &mut crate::rng::Rng, n: usize) -> Vec<u8> {
     const TOKENS: &[&str] = &[
         "ver:\"3.0\"", "\n", "\r\n", "\r", ",", " ", "  ", "\t", "[", "]", "{", "}", "<<", ">>", "<", ">", ":", "a", "b", "dis", "empty", "N", "NA",
-        "M", "R", "T", "F", "NaN", "INF", "-INF", "-", "1", "12", "-3.5", "1e5", "1E-3", "5kW", "100%", "1_000", "2021-03-04", "12:30:00",
+        "M", "R", "T", "F", "NaN", "INF", "-INF", "-", "1", "12", "-3.5", "1e5", "1E-3", "1e3.0", "1e3.5", "1E-3.00000000000000000000000001", "1e0.99999999999999999999999", "1e+-3", "5kW", "100%", "1_000", "2021-03-04", "12:30:00",
         "12:30:00.123", "2021-03-04T12:30:00Z", "2021-03-04T12:30:00-05:00 New_York", "2021-03-04T12:30:00Z UTC", "@a", "@a \"x\"", "^sym",
         "\"str\"", "\"a\\nb\"", "\"\\u00e9\"", "\"\\uD83D\\uDE00\"", "\"\\ud800\"", "`\\uDFFF`", "@r \"\\uDBFF\"", "\\uD83D", "\"", "`uri`", "`", "\\", "C(1,2)", "C(", "Bin(\"x\")", "Xyz", "(", ")", "é", "\u{1F600}", "$", "_", ".",
         "0", "9999", "e", "E", "Z", "+", "/",
